@@ -32,6 +32,7 @@ class AnalysisBroken(Exception):
 
 
 _flags_cache = None
+EXTRA = []          # extra configuration flags (thorough tier), appended to every extraction
 
 
 def base_flags():
@@ -101,7 +102,7 @@ def _file_hash(p):
 def extract(tu, sels, recs=(), extra=(), roots=None, overlay=None):
     """Run pikafacts on one TU (cached by TU + flags + selectors + content of every dependency)."""
     flags, _ = base_flags()
-    flags = list(flags) + list(extra)
+    flags = list(flags) + list(EXTRA) + list(extra)
     # llvm::Regex is POSIX ERE: no \w / \d
     sels = [s_.replace("\\w", "[A-Za-z0-9_]").replace("\\d", "[0-9]") for s_ in sels]
     recs = [s_.replace("\\w", "[A-Za-z0-9_]").replace("\\d", "[0-9]") for s_ in recs]
